@@ -21,6 +21,7 @@ NPROC = 16
 
 ENV = dict(os.environ)
 ENV.update({"CARGO_NET_OFFLINE": "true", "GOPROXY": "off", "PIP_NO_INDEX": "1"})
+ENV.setdefault("IMPLDRV_CASE_SECS", "5")
 
 ALLOWED_AXIOMS = set()  # every property theorem is expected to be "Closed under the global context"
 
@@ -140,54 +141,69 @@ def audit_ok(a):
             and a["closed"] == a.get("print_assumptions", -1) and a["closed"] >= len(a["theorems"]))
 
 
+_ABNORMAL = {"n": 0}
+MAX_ABNORMAL = 8
+
+
 def _run_shard(binary, lines, timeout):
-    """Runs one driver process over `lines`; a case that does not finish within `timeout` seconds is HANG."""
+    """Runs one driver process over `lines`. impldrv has a per-case watchdog (prints HANG and exits); a driver that dies
+    in the middle of a case yields CRASH for that case; a shard that exceeds `timeout` seconds yields HANG for the case
+    it was on. After MAX_ABNORMAL such events in one run the remaining cases are NOTRUN (a violation is established)."""
     out = []
     i = 0
     while i < len(lines):
+        if _ABNORMAL["n"] >= MAX_ABNORMAL:
+            out.extend(["NOTRUN"] * (len(lines) - i))
+            return out
         chunk = lines[i:]
         p = subprocess.Popen([binary], stdin=subprocess.PIPE, stdout=subprocess.PIPE, stderr=subprocess.DEVNULL, env=ENV)
         data = ("\n".join(chunk) + "\n").encode()
+        timed_out = False
         try:
             so, _ = p.communicate(data, timeout=timeout)
-            got = so.decode(errors="replace").split("\n")
-            if got and got[-1] == "":
-                got.pop()
-            if len(got) == len(chunk):
-                out.extend(got)
-                return out
-            # the process died in the middle of a case (abort, stack overflow, OOM): that case is CRASH
-            out.extend(got[:len(chunk)])
-            if len(got) < len(chunk):
-                out.append("CRASH")
-                i += len(got) + 1
-            else:
-                return out
         except subprocess.TimeoutExpired:
             p.kill()
             so, _ = p.communicate()
-            got = so.decode(errors="replace").split("\n")
-            if got and got[-1] == "":
-                got.pop()
-            got = got[:len(chunk)]
+            timed_out = True
+        got = so.decode(errors="replace").split("\n")
+        if got and got[-1] == "":
+            got.pop()
+        got = got[:len(chunk)]
+        if len(got) == len(chunk) and not timed_out:
             out.extend(got)
-            out.append("HANG")
+            return out
+        _ABNORMAL["n"] += 1
+        out.extend(got)
+        if got and got[-1] in ("HANG", "CRASH") and not timed_out:
+            i += len(got)          # the watchdog already reported the case it stopped on
+        else:
+            if len(got) < len(chunk):
+                out.append("HANG" if timed_out else "CRASH")
             i += len(got) + 1
     return out
 
 
-def run_driver(binary, lines, timeout=120, shards=NPROC):
+def run_driver(binary, lines, timeout=600, shards=NPROC):
+    """Runs the driver over all lines on up to `shards` processes. Lines are dealt to the shards longest-first
+    (cost grows with input size in the list-based model) and the outputs are put back in input order."""
     if not lines:
         return []
-    n = max(1, min(shards, (len(lines) + 199) // 200))
-    size = (len(lines) + n - 1) // n
-    parts = [lines[i:i + size] for i in range(0, len(lines), size)]
+    _ABNORMAL["n"] = 0
+    n = max(1, min(shards, (len(lines) + 99) // 100))
+    order = sorted(range(len(lines)), key=lambda k: -len(lines[k]))
+    buckets = [[] for _ in range(n)]
+    loads = [0] * n
+    for k in order:
+        b = loads.index(min(loads))
+        buckets[b].append(k)
+        loads[b] += 50 + len(lines[k]) + (len(lines[k]) // 64) ** 2
     with ThreadPoolExecutor(max_workers=n) as ex:
-        outs = list(ex.map(lambda part: _run_shard(binary, part, timeout), parts))
-    res = []
-    for o in outs:
-        res.extend(o)
-    assert len(res) == len(lines), (len(res), len(lines))
+        outs = list(ex.map(lambda idxs: _run_shard(binary, [lines[k] for k in idxs], timeout), buckets))
+    res = [None] * len(lines)
+    for idxs, o in zip(buckets, outs):
+        assert len(o) == len(idxs), (len(o), len(idxs))
+        for k, v in zip(idxs, o):
+            res[k] = v
     return res
 
 
